@@ -598,7 +598,7 @@ void check_cycle(DateTime t) {
         ok_views &= (iv.modified() == g_ticked);
         ValueView d = iv.delta_value();
         observe(iv, &d);
-        if (g_pushed) {
+        if (g_pushed && !g_cleared) {  // capture_delta documents that it rejects ticks in which clear() participated
             Value cap = capture_delta(iv);
             ValueView cv = cap.view();
             observe(iv, &cv);
